@@ -69,6 +69,13 @@ def cases(tier, seed):
         for cb in (1e-8, 1e-4, 1e5):
             out.append({"kind": "scaling", "cls": f"rhs_scaling:{cb:g}", "n": n, "c": 1.0, "cb": cb, "idx": idx, "seed": seed})
             idx += 1
+        # ... also for matrices that converge GRADUALLY over the restart cycles, at the tightest tolerances: some cycle then starts from a
+        # residual that is tiny against ||A|| (1e-16 ||A||) and still above tol ||b|| -- any test that measures the residual against ||A||
+        # instead of ||b|| stops there
+        for mcls_ in ("near_identity", "clustered_eigs", "identity_small_lowrank"):
+            for cb in (1e-6, 1e-9):
+                out.append({"kind": "scaling", "cls": f"rhs_scaling:{cb:g}:{mcls_}", "n": n, "c": 1.0, "cb": cb, "mcls": mcls_, "idx": idx, "seed": seed})
+                idx += 1
     # identity plus a LARGE low-rank term (norm 1e3 .. 1e7): the Krylov space is invariant after r + 1 vectors, but the sub-diagonal entry
     # that should vanish is round-off of the size of eps * ||A||, i.e. at the edge of what an exact-zero breakdown test sees.  The
     # attainable residual (eps * kappa) is above the smallest in-domain tolerance, so the solver keeps cycling: the history has to stay
